@@ -26,7 +26,7 @@ def nontrivial(prog):
     if prog['ctl'] or len(prog['ins']) > 50:
         return True
     for i in prog['ins']:
-        if i['op'] in ('mce', 'bad') or i['nout'] > 1:
+        if i['op'] in ('mce', 'bad', 'sinkn') or i['nout'] > 1:
             return True
         if i['cls'] in ('LocalBuf', 'SetBuf', 'ClearBuf', 'FFT', 'IFFT', 'PV_MagSquared', 'RandSeed', 'RandID'):
             return True
@@ -72,14 +72,17 @@ def run(ctx):
     ctx.expect_ok(r, 'ScgfOrder L2 refines L1')
     # 2. programs: TLC-enumerated (including rate-invalid ones), simulated long ones, seeded random ones with
     #    width-first / multi-output / list arguments, invalid inputs, every name length, long chains
-    with ThreadPoolExecutor(max_workers=3) as ex:
+    with ThreadPoolExecutor(max_workers=4) as ex:
         f1 = ex.submit(lambda: sp.tlc_programs(ctx, 'bad2' if thorough else 'badS', timeout=1500, workers=8,
                                                label='rate-valid and rate-invalid programs'))
         f2 = ex.submit(lambda: sp.tlc_programs(ctx, 'long', simulate='num=%d' % (1500 if thorough else 120), depth=30,
                                                seed=ctx.seed + 3, timeout=900, label='simulated long programs'))
         f3 = ex.submit(lambda: sp.tlc_programs(ctx, 'mo2' if thorough else 'moS', timeout=1500, workers=4,
                                                label='multi-output programs'))
-        progs = f1.result() + f2.result() + f3.result()
+        # output units with channel arrays: every class, every position, flat and nested (valid and invalid)
+        f4 = ex.submit(lambda: sp.tlc_programs(ctx, 'arrM' if thorough else 'arrS', timeout=1500, workers=4,
+                                               label='output units with channel arrays'))
+        progs = f1.result() + f2.result() + f3.result() + f4.result()
     for i, p in enumerate(progs):
         p['name'] = '%s_%d' % (p['name'], i)
     ntlc = len(progs)
@@ -91,6 +94,9 @@ def run(ctx):
     for i in range(ninv):
         progs.append(sp.random_program(rnd, rnd.randint(3, 20), 'bad%d' % i,
                                        bad=rnd.choice(['nan', 'str', 'none', 'empty'])))
+    narr = 4000 if thorough else 500
+    for i in range(narr):
+        progs.append(sp.array_sink_program(rnd, 'arr%d' % i))
     names = name_programs()
     progs += names
     sizes = [300, 450, 600, 800] * 4 if thorough else [120, 200, 300]
